@@ -11,6 +11,8 @@ package ipns
 import (
 	"bytes"
 	"crypto/rand"
+	"crypto/sha256"
+	"encoding/binary"
 	"encoding/json"
 	"errors"
 	"fmt"
@@ -33,12 +35,13 @@ type c28Tab struct {
 	token  map[string]string  // reverse
 	cids   map[string]cid.Cid // "v0-dagpb:1" -> real CID
 	tokCid map[string]string  // token -> model cid key ("" = does not decode)
-	keys   map[string]peer.ID // key type -> peer id
+	keys   map[string]peer.ID // key class (kt/fst/lst) -> peer id, built on demand by keyFor
+	t      *testing.T
 }
 
 func c28MkTab(t *testing.T) *c28Tab {
 	tb := &c28Tab{text: map[string]string{}, token: map[string]string{}, cids: map[string]cid.Cid{},
-		tokCid: map[string]string{}, keys: map[string]peer.ID{}}
+		tokCid: map[string]string{}, keys: map[string]peer.ID{}, t: t}
 	h1, _ := mh.Sum([]byte("c28-block-1"), mh.SHA2_256, -1)
 	h2, _ := mh.Sum([]byte("c28-some-rsa-public-key"), mh.SHA2_256, -1) // textual class of an RSA peer id
 	v0 := cid.NewCidV0(h1)
@@ -104,22 +107,6 @@ func c28MkTab(t *testing.T) *c28Tab {
 		!strings.HasPrefix(tb.text["pidCidB36"], "k51") || !strings.HasPrefix(tb.text["cidV1b58"], "z") {
 		t.Fatalf("projection: unexpected token texts %v", tb.text)
 	}
-	// keys for the name graph
-	for _, k := range []struct {
-		name string
-		typ  int
-		bits int
-	}{{"rsa2048", ic.RSA, 2048}, {"ed25519", ic.Ed25519, 0}, {"secp256k1", ic.Secp256k1, 0}, {"ecdsa", ic.ECDSA, 0}} {
-		priv, _, err := ic.GenerateKeyPairWithReader(k.typ, k.bits, rand.Reader)
-		if err != nil {
-			t.Fatal(err)
-		}
-		pid, err := peer.IDFromPrivateKey(priv)
-		if err != nil {
-			t.Fatal(err)
-		}
-		tb.keys[k.name] = pid
-	}
 	return tb
 }
 
@@ -161,6 +148,175 @@ func (tb *c28Tab) cidKey(c cid.Cid) string {
 	return "?" + c.String()
 }
 
+// ---- binary key classes (spec: KeyClasses / Hdr / PLen / Lead / InClass) ------------------------
+// The spec describes a key by the framing of its multihash (kt) and the byte-value class of the first
+// and last payload bytes.  keyFor finds or constructs a real peer ID for the class; phase T logs the
+// concrete bytes and the spec re-checks InClass on them, so this code is checked, not trusted.
+
+type c28Key struct {
+	Kt  string `json:"kt"`
+	Fst string `json:"fst"`
+	Lst string `json:"lst"`
+}
+
+func (k c28Key) id() string { return k.Kt + "/" + k.Fst + "/" + k.Lst }
+
+var c28Prefix = []byte(NamespacePrefix)
+
+func c28ClassBytes(cl string) []byte {
+	switch cl {
+	case "sl":
+		return []byte{0x2f}
+	case "z":
+		return []byte{0x00}
+	case "ff":
+		return []byte{0xff}
+	case "ipns":
+		return c28Prefix
+	case "any":
+		return nil
+	}
+	panic("byte class " + cl)
+}
+
+func c28Special(b byte) bool { return b == 0x2f || b == 0x00 || b == 0xff }
+
+func (k c28Key) hdr() ([]byte, int) {
+	switch k.Kt {
+	case "ed25519":
+		return []byte{0x00, 0x24, 0x08, 0x01, 0x12, 0x20}, 32
+	case "secp256k1":
+		return []byte{0x00, 0x25, 0x08, 0x02, 0x12, 0x21}, 33
+	case "rawmh":
+		if k.Fst == "ipns" {
+			return []byte{0x2f, 0x69}, 105
+		}
+		return []byte{0x2f, 40}, 40
+	case "ecdsa", "rsa2048", "sha256":
+		return []byte{0x12, 0x20}, 32
+	}
+	panic("key type " + k.Kt)
+}
+
+func (k c28Key) lead() []byte {
+	if k.Kt == "rawmh" {
+		if k.Fst == "ipns" {
+			return []byte("pns/")
+		}
+		return nil
+	}
+	return c28ClassBytes(k.Fst)
+}
+
+// inClass: are the raw multihash bytes b a member of class k?
+func (k c28Key) inClass(b []byte) bool {
+	h, pl := k.hdr()
+	n := len(h) + pl
+	ld, tr := k.lead(), c28ClassBytes(k.Lst)
+	if len(b) != n || !bytes.HasPrefix(b, h) || !bytes.HasPrefix(b[len(h):], ld) || !bytes.HasSuffix(b, tr) {
+		return false
+	}
+	if k.Fst == "any" && c28Special(b[len(h)]) {
+		return false
+	}
+	if k.Lst == "any" && c28Special(b[n-1]) {
+		return false
+	}
+	if k.Kt == "secp256k1" && b[len(h)] != 2 && b[len(h)] != 3 {
+		return false
+	}
+	return true
+}
+
+// payload with the class bytes at both ends and random filler (below 0x80 and never '/' when small is set)
+func (k c28Key) payload(small bool) []byte {
+	_, pl := k.hdr()
+	p := make([]byte, pl)
+	rand.Read(p)
+	for i := range p {
+		if small {
+			p[i] = 1 + p[i]%126
+		}
+		for (i == 0 || i == pl-1 || small) && c28Special(p[i]) {
+			p[i] = p[i]/2 + 3
+		}
+	}
+	copy(p, k.lead())
+	tr := c28ClassBytes(k.Lst)
+	copy(p[pl-len(tr):], tr)
+	return p
+}
+
+func (tb *c28Tab) keyFor(k c28Key) peer.ID {
+	if pid, ok := tb.keys[k.id()]; ok {
+		return pid
+	}
+	t := tb.t
+	var pid peer.ID
+	found := false
+	switch k.Kt {
+	case "ed25519": // identity multihash of chosen public-key bytes (any 32 bytes are a valid ed25519 key encoding)
+		pub, err := ic.UnmarshalEd25519PublicKey(k.payload(false))
+		if err != nil {
+			t.Fatal(err)
+		}
+		if pid, err = peer.IDFromPublicKey(pub); err != nil {
+			t.Fatal(err)
+		}
+		found = true
+	case "rawmh": // a well-framed multihash that is not the hash of a key: hash code 0x2f
+		h, _ := k.hdr()
+		id, err := peer.IDFromBytes(append(append([]byte{}, h...), k.payload(true)...))
+		if err != nil {
+			t.Fatalf("projection: raw multihash rejected by peer.IDFromBytes: %v", err)
+		}
+		pid, found = id, true
+	case "sha256": // sha2-256 multihash (the shape of RSA / ECDSA peer IDs) found by search
+		var pre [16]byte
+		binary.LittleEndian.PutUint64(pre[:], uint64(vSeed()))
+		for i := uint64(0); i < 1<<24 && !found; i++ {
+			binary.LittleEndian.PutUint64(pre[8:], i)
+			d := sha256.Sum256(pre[:])
+			if b := append([]byte{0x12, 0x20}, d[:]...); k.inClass(b) {
+				pid, found = peer.ID(b), true
+			}
+		}
+	case "secp256k1", "ecdsa", "rsa2048": // real key pairs, brute-forced until the peer ID is in the class
+		typ, bits := map[string]int{"secp256k1": ic.Secp256k1, "ecdsa": ic.ECDSA, "rsa2048": ic.RSA}[k.Kt], 0
+		if k.Kt == "rsa2048" {
+			bits = 2048
+		}
+		for i := 0; i < 1<<14 && !found; i++ {
+			priv, _, err := ic.GenerateKeyPairWithReader(typ, bits, rand.Reader)
+			if err != nil {
+				t.Fatal(err)
+			}
+			id, err := peer.IDFromPrivateKey(priv)
+			if err != nil {
+				t.Fatal(err)
+			}
+			if k.inClass([]byte(id)) {
+				pid, found = id, true
+			}
+		}
+	default:
+		t.Fatalf("projection: unknown key type %q", k.Kt)
+	}
+	if !found || !k.inClass([]byte(pid)) {
+		t.Fatalf("projection: no peer ID of class %s (got %x)", k.id(), []byte(pid))
+	}
+	tb.keys[k.id()] = pid
+	return pid
+}
+
+func c28Ints(b []byte) []int {
+	out := make([]int, len(b))
+	for i, x := range b {
+		out[i] = int(x)
+	}
+	return out
+}
+
 // ---- model-side records ---------------------------------------------------------------------
 
 type c28Cid struct {
@@ -200,7 +356,7 @@ type c28Case struct {
 	Sg   []string   `json:"sg"`
 	Sch  string     `json:"sch"`
 	Sep  string     `json:"sep"`
-	Key  string     `json:"key"`
+	Key  json.RawMessage `json:"key"` // "n": key class record, "x": key type
 	Es   []string   `json:"es"`
 	Form string     `json:"form"`
 	Same bool       `json:"same"`
@@ -413,10 +569,11 @@ func c28Edge(edge string, n Name) (Name, error) {
 }
 
 func (tb *c28Tab) checkName(c *c28Case) string {
-	pid, ok := tb.keys[c.Key]
-	if !ok {
-		panic("key " + c.Key)
+	var kc c28Key
+	if err := json.Unmarshal(c.Key, &kc); err != nil {
+		tb.t.Fatalf("key class %s: %v", c.Key, err)
 	}
+	pid := tb.keyFor(kc)
 	n0 := NameFromPeer(pid)
 	canon := n0.String()
 	if !strings.HasPrefix(canon, "k") || canon != strings.ToLower(canon) {
@@ -429,12 +586,12 @@ func (tb *c28Tab) checkName(c *c28Case) string {
 	for i, e := range c.Es {
 		m, err := c28Edge(e, n)
 		if err != nil {
-			return fmt.Sprintf("key %s: conversion %d (%s) failed: %v", c.Key, i+1, e, err)
+			return fmt.Sprintf("key %s (multihash %x): conversion %d (%s) failed: %v", kc.id(), []byte(pid), i+1, e, err)
 		}
 		same := m.Equal(n0) && m.String() == canon && m.Peer() == pid && bytes.Equal(m.RoutingKey(), n0.RoutingKey()) &&
 			m.Cid().Equals(n0.Cid())
 		if same != c.Same {
-			return fmt.Sprintf("key %s: after %v the name is %s, started from %s", c.Key, c.Es[:i+1], m.String(), canon)
+			return fmt.Sprintf("key %s (multihash %x): after %v the name is %s, started from %s", kc.id(), []byte(pid), c.Es[:i+1], m.String(), canon)
 		}
 		n = m
 	}
@@ -442,10 +599,14 @@ func (tb *c28Tab) checkName(c *c28Case) string {
 }
 
 func (tb *c28Tab) checkBad(c *c28Case) string {
-	n := NameFromPeer(tb.keys[c.Key])
+	var kt string
+	if err := json.Unmarshal(c.Key, &kt); err != nil {
+		tb.t.Fatalf("key type %s: %v", c.Key, err)
+	}
+	n := NameFromPeer(tb.keyFor(c28Key{kt, "any", "any"}))
 	rej := func(what string, err error) string {
 		if err == nil {
-			return fmt.Sprintf("key %s: %s accepted, spec expects rejection (form %s)", c.Key, what, c.Form)
+			return fmt.Sprintf("key %s: %s accepted, spec expects rejection (form %s)", kt, what, c.Form)
 		}
 		return ""
 	}
@@ -532,8 +693,69 @@ func c28Replay(t *testing.T) {
 }
 
 // c28Record: long random token sequences (beyond the exhaustive bound), one event per parser call.
+// c28RkInput: the byte strings handed to NameFromRoutingKey (spec: RkInput)
+var c28RkVariants = []string{"exact", "plusSlash", "minusLast", "doublePrefix", "slashFirst", "bare", "pk", "upper", "noSlash"}
+
+func c28RkInput(v string, b []byte) []byte {
+	cat := func(parts ...[]byte) []byte { return bytes.Join(parts, nil) }
+	switch v {
+	case "exact":
+		return cat(c28Prefix, b)
+	case "plusSlash":
+		return cat(c28Prefix, b, []byte("/"))
+	case "minusLast":
+		return cat(c28Prefix, b[:len(b)-1])
+	case "doublePrefix":
+		return cat(c28Prefix, c28Prefix, b)
+	case "slashFirst":
+		return cat([]byte("/"), c28Prefix, b)
+	case "bare":
+		return cat(b)
+	case "pk":
+		return cat([]byte("/pk/"), b)
+	case "upper":
+		return cat([]byte("/IPNS/"), b)
+	case "noSlash":
+		return cat([]byte("/ipns"), b)
+	}
+	panic("variant " + v)
+}
+
+// c28RecordNames: for every binary key class of the spec (VERIF_IN) log the concrete multihash used, its
+// routing key, and the result of NameFromRoutingKey on every derived byte string.
+func c28RecordNames(t *testing.T, tb *c28Tab) {
+	in := vIn()
+	if len(in) == 0 {
+		t.Fatalf("record mode needs the key classes of the spec in VERIF_IN")
+	}
+	for _, raw := range in {
+		var kc c28Key
+		if err := json.Unmarshal(raw, &kc); err != nil {
+			t.Fatal(err)
+		}
+		pid := tb.keyFor(kc)
+		b := []byte(pid)
+		n := NameFromPeer(pid)
+		vEmit(M{"ev": "NameKey", "key": kc, "mh": c28Ints(b), "rk": c28Ints(n.RoutingKey())})
+		for _, v := range c28RkVariants {
+			d := c28RkInput(v, b)
+			// the spec models one-byte varints only: never hand it anything else (broken check, not a finding)
+			if rest := d[len(c28Prefix):]; bytes.HasPrefix(d, c28Prefix) && len(rest) >= 2 && (rest[0] >= 0x80 || rest[1] >= 0x80) {
+				t.Fatalf("projection: variant %s of key %s needs multi-byte varints (%x)", v, kc.id(), d)
+			}
+			m, err := NameFromRoutingKey(append([]byte{}, d...))
+			r := M{"ok": err == nil, "mh": []int{}}
+			if err == nil {
+				r["mh"] = c28Ints([]byte(m.Peer()))
+			}
+			vEmit(M{"ev": "NameRK", "v": v, "d": c28Ints(d), "r": r})
+		}
+	}
+}
+
 func c28Record(t *testing.T) {
 	tb := c28MkTab(t)
+	c28RecordNames(t, tb)
 	r := mrand.New(mrand.NewSource(vSeed()))
 	all := []string{"e", "dot", "dd", "ipfs", "ipns", "ipld", "IPFS", "cidV0", "cidV1b32", "cidV1b36", "cidV1b58",
 		"pidRsaB58", "pidEdB58", "pidCidB36", "a", "uni", "sp", "dots3", "badcid"}
